@@ -254,7 +254,7 @@ func (s *sk) ifStmt(d int, kind string, st *ast.IfStmt) {
 // renaming a local does not change the skeleton (adding or removing one shifts the roles and does).
 var canon = map[string][]string{
 	"render": {"vx", "reposition", "cursor", "outerLast", "p1", "p2", "outerNew", "p1", "p2", "row", "dirty", "col", "next", "end", "skip", "i", "end",
-		"fg", "ps", "bg", "ps", "ul", "ps", "attr", "dAttr", "on", "off", "ulStyle", "link", "linkPs", "skip", "i", "end"},
+		"fg", "ps", "bg", "ps", "ul", "ps", "attr", "dAttr", "on", "off", "ulStyle", "link", "linkPs", "i", "skip", "i", "end"},
 	"showCursor":  {"vx", "buf"},
 	"advance":     {"vx", "cell", "w"},
 	"Write":       {"w", "p", "n", "err"},
